@@ -4,17 +4,19 @@ pub mod c03;
 pub mod c04;
 pub mod c05;
 pub mod c07;
+pub mod c08;
 pub mod c09;
 pub mod c10;
 pub mod c11;
 pub mod c12;
+pub mod c14;
 pub mod c16;
 pub mod c17;
 pub mod c18;
 
 use crate::engine::Property;
 
-pub const ALL_IDS: &[&str] = &["C01", "C03", "C04", "C05", "C07", "C09", "C10", "C11", "C12", "C16", "C17", "C18"];
+pub const ALL_IDS: &[&str] = &["C01", "C03", "C04", "C05", "C07", "C08", "C09", "C10", "C11", "C12", "C14", "C16", "C17", "C18"];
 
 pub fn build(id: &str) -> Option<Property> {
     match id {
@@ -23,10 +25,12 @@ pub fn build(id: &str) -> Option<Property> {
         "C04" => Some(c04::build()),
         "C05" => Some(c05::build()),
         "C07" => Some(c07::build()),
+        "C08" => Some(c08::build()),
         "C09" => Some(c09::build()),
         "C10" => Some(c10::build()),
         "C11" => Some(c11::build()),
         "C12" => Some(c12::build()),
+        "C14" => Some(c14::build()),
         "C16" => Some(c16::build()),
         "C17" => Some(c17::build()),
         "C18" => Some(c18::build()),
